@@ -17,11 +17,13 @@ CHECKS = {
     "C12": dict(
         text="Coq theorems C12_conservation (no underflow/assert, CPU-delta and off-CPU conservation against plain history sums, remainder < I, "
              "group shape and ordering), C12_group_inside_sleep, C12_no_double_count and C12_checker_accepts_model hold for every interval I > 0 and "
-             "every nondecreasing history (induction, no bound). The model is tied to samply/src/shared/context_switch.rs (compiled into the harness by #[path]) "
-             "by running generated histories and evaluating the verified boolean checker and the model inside Coq on the implementation's outputs.",
-        note="Trusted: Coq kernel; harness h_incl (reads the private accumulators through the Debug rendering); generators. "
+             "every nondecreasing history (induction, no bound). The model is tied to samply/src/shared/context_switch.rs in both ways: (a) tools/xlate_cs.py translates the five methods of "
+             "`impl ContextSwitchHandler` into Gallina on every run (Generated/ContextSwitchGen.v) and C12_translation_agrees proves that translation equal to the model for every I > 0 and every "
+             "event sequence, so C12_conservation_of_translation is a theorem about the current source; (b) the file is compiled into the harness by #[path], generated histories are run, and the "
+             "verified boolean checker and the model are evaluated inside Coq on the implementation's outputs.",
+        note="Trusted: Coq kernel; tools/xlate_cs.py (the reading of the Rust subset: u64 arithmetic with panics on underflow / division by zero / debug_assert, struct updates, match on the state enum); harness h_incl (reads the private accumulators through the Debug rendering); generators. "
              "Hypotheses: I > 0, nondecreasing timestamps (the property's quantifier). Not covered: the converter constructing the handler with interval 0; per_cpu.rs callers.",
-        technique="Coq proof (invariant + conservation by induction over the event history) + differential correspondence run with a verified checker evaluated by vm_compute",
+        technique="Coq proof (invariant + conservation by induction over the event history) over a model that is proved equal to a translation of the source regenerated on every run + differential correspondence run with a verified checker evaluated by vm_compute",
         design="4/C12"),
     "C04": dict(
         text="Coq theorem C04_serialized_table: for every history of add_sample / add_sample_same_stack_zero_cpu (and add-only counter) calls, serialization does not "
